@@ -118,6 +118,59 @@ def expect_raise(o: Outcome, names, tags=None) -> Optional[Tuple[str, str]]:
     return None
 
 
+def _unit_ids_in(st: State, v, acc: set, depth=0):
+    """Parameter-level unit ids a value mentions (directly, or through the scale polynomial of a looked-up unit)."""
+    if depth > 6:
+        return
+    if isinstance(v, UnitV):
+        u = st.U(v.uid)
+        acc.add(st.ufind(v.uid))
+        for a in st.norm(u.mu).atoms():
+            if a[0] in ("mu", "sf", "beta") and a[1] in st.uparent:
+                acc.add(st.ufind(a[1]))
+    elif isinstance(v, Num):
+        for a in st.norm(v.rf).atoms():
+            if a[0] in ("mu", "sf", "beta") and a[1] in st.uparent:
+                acc.add(st.ufind(a[1]))
+    elif isinstance(v, (TupleV, ListV)) and getattr(v, "items", None) is not None:
+        for x in v.items:
+            _unit_ids_in(st, x, acc, depth + 1)
+    elif isinstance(v, QtyV):
+        if v.unit is not None:
+            _unit_ids_in(st, v.unit, acc, depth + 1)
+    elif isinstance(v, RateV):
+        _unit_ids_in(st, v.unit, acc, depth + 1)
+        _unit_ids_in(st, v.term, acc, depth + 1)
+
+
+def memo_key_defect(o: Outcome) -> Optional[Tuple[str, str]]:
+    """A value memoised in a process-global mapping must be keyed by every input it was computed from:
+    otherwise a later call with another input replays a stale result (history dependence)."""
+    st = o.state
+    for e in st.effects:
+        if e[0] != "setitem" or not isinstance(e[1], GlobalMapV):
+            continue
+        g = e[1]
+        if getattr(g, "registry", False) or getattr(g, "unit_values", False) or getattr(g, "owner", None) is not None:
+            continue
+        key, val = e[2], e[3]
+        if not isinstance(key, TupleV):
+            continue
+        kids, vids = set(), set()
+        _unit_ids_in(st, key, kids)
+        direct = {st.ufind(x.uid) for x in key.items if isinstance(x, UnitV)}
+        _unit_ids_in(st, val, vids)
+        params = set()
+        for a in list(o.args) + list(o.kwargs.values()):
+            _unit_ids_in(st, a, params)
+        missing = sorted((vids & params) - direct)
+        if missing:
+            return ("memoised result is not keyed by all the inputs it depends on",
+                    f"{g.name}[{key!r}] = {val!r} depends on {missing}, which the key does not contain: a later call "
+                    f"with another such input would replay this entry")
+    return None
+
+
 class CaseRunner:
     """Runs a function on a case and files obligations/violations in a Result."""
 
@@ -151,6 +204,8 @@ class CaseRunner:
                     r = judge(o)
                 except Infeasible:
                     r = None
+            if r is None:
+                r = memo_key_defect(o)
             if r is not None:
                 fails.append(Violation(rule, site, case, r[0], f"{r[1]}; outcome: {o.brief()}", list(o.trace)))
         res.obligations += 1
@@ -332,12 +387,40 @@ def judge_compare(opname: str, fl: str, units=False):
                 same = st.same_unit(su.uid, ou.uid)
                 if v.val == (same is True) and same is not None:
                     return None
+            exp = known_truth(st, CmpV(want_op, Num(VAL(o, 0)), Num(VAL(o, 1))))
+            if exp is not None:
+                return None if exp == v.val else \
+                    ("comparison result contradicts the values", f"{v!r}, but {want_op}(val(self), val(other)) is {exp} on this path")
             return ("constant comparison result", f"{v!r} for symbolic operands")
         if not isinstance(v, CmpV):
             return ("returns non-boolean", repr(v))
-        if v.negated or v.op != want_op:
-            return ("wrong comparison operator", f"{v!r}; contract operator {want_op}")
         L, R = st.norm(v.l.rf), st.norm(v.r.rf)
+        if v.negated or v.op != want_op:
+            # another operator (or a negation / swapped operands) is fine when, under the facts established on
+            # this path, it has the same truth table over the possible signs of val(self) - val(other)
+            vs_, vo_ = VAL(o, 0), VAL(o, 1)
+            swapped = False
+            if (L * vo_).equals(R * vs_) and not vs_.is_zero() and _sign_of_rf(st, vs_ / L) == 1:
+                pass
+            elif (L * vs_).equals(R * vo_) and not vo_.is_zero() and _sign_of_rf(st, vo_ / L) == 1:
+                swapped = True
+            else:
+                return ("wrong comparison operator", f"{v!r}; contract operator {want_op}")
+            holds = lambda o_, s_: {"==": s_ == 0, "!=": s_ != 0, "<": s_ < 0, "<=": s_ <= 0, ">": s_ > 0, ">=": s_ >= 0}[o_]
+            dconst = st.norm(vs_ - vo_)
+            if dconst.is_const():
+                allowed = [(dconst.const_value() > 0) - (dconst.const_value() < 0)]
+            else:
+                allowed = [s_ for s_ in (-1, 0, 1)
+                           if all(known_truth_sign(st, vs_ - vo_, s_))]
+            for s_ in allowed:
+                got = holds(v.op, -s_ if swapped else s_)
+                if v.negated:
+                    got = not got
+                if got != holds(want_op, s_):
+                    return ("wrong comparison operator",
+                            f"{v!r}; contract operator {want_op} (differs when val(self) - val(other) has sign {s_})")
+            return None
         ca = conv_atoms(R) + conv_atoms(L)
         if ca:
             if linear:
@@ -403,7 +486,7 @@ def known_truth(st: State, v):
     if diff.is_const():
         r = holds(v.op, (diff.const_value() > 0) - (diff.const_value() < 0))
         return (not r) if v.negated else r
-    k1, k2 = diff.key(), (RF.const(0) - diff).key()
+    k1, k2 = st.canon_diff(diff).key(), st.canon_diff(RF.const(0) - diff).key()
     allowed = {-1, 0, 1}
     for k, o_, r_ in st.cmp_facts:
         if k == k2 and k2 != k1:
@@ -415,3 +498,17 @@ def known_truth(st: State, v):
         return None
     r = vals.pop()
     return (not r) if v.negated else r
+
+
+def known_truth_sign(st: State, diff: RF, sign: int):
+    """Yield True/False for every comparison fact of the path about `diff`: is `sign` consistent with it?"""
+    holds = lambda o_, s_: {"==": s_ == 0, "!=": s_ != 0, "<": s_ < 0, "<=": s_ <= 0, ">": s_ > 0, ">=": s_ >= 0}[o_]
+    flip = {"==": "==", "!=": "!=", "<": ">", "<=": ">=", ">": "<", ">=": "<="}
+    k1, k2 = st.canon_diff(diff).key(), st.canon_diff(RF.const(0) - diff).key()
+    out = []
+    for k, o_, r_ in st.cmp_facts:
+        if k == k2 and k2 != k1:
+            k, o_ = k1, flip[o_]
+        if k == k1:
+            out.append(holds(o_, sign) == r_)
+    return out
